@@ -230,7 +230,7 @@ def finish(prop, tier, seed, mod, results, extra_results, known_lines, t0, args)
             "assumptions": list(getattr(mod, "ASSUMPTIONS", [])),
             "coverage": {
                 "states": max(paths, 0),
-                "transitions": max(decisions, 0),
+                "transitions": max(decisions, 0) + max(paths, 0),
                 "traces_validated_against_impl": validated,
                 "samples": samples or [{"note": "no sample recorded"}],
                 "paths_verified_unsat": verified,
@@ -248,7 +248,7 @@ def finish(prop, tier, seed, mod, results, extra_results, known_lines, t0, args)
                 "per_obligation_family": _families(per_ob),
                 "per_obligation_slowest": sorted(per_ob, key=lambda o: -(o.get("wall_s") or 0))[:40],
                 "exhaustive": False,
-                "rule": "states = explored symbolic paths (each ends in a solver query path∧¬property); transitions = solver-decided branch decisions; validated = paths whose model was replayed natively with identical observation",
+                "rule": "states = explored symbolic paths (each ends in a solver query path∧¬property); transitions = solver-decided branch decisions plus the one property decision (path∧¬property) that ends each path; validated = paths whose model was replayed natively with identical observation",
             },
         }
         os.makedirs(os.path.join(ROOT, "evidence"), exist_ok=True)
